@@ -13,4 +13,7 @@ core::RunResult execute(const core::Plan &plan, bool log);
 core::Plan gen_stream(const std::string &prop, uint64_t seed, bool thorough);
 core::RunResult run_stream(const core::Plan &plan, bool log);
 
+core::Plan gen_pending(uint64_t seed, bool thorough);
+core::RunResult run_pending(const core::Plan &plan, bool log);
+
 }  // namespace libchecks
